@@ -395,17 +395,16 @@ fn thread_body(tid: usize, m: usize, opseed: u64, mode: Mode) -> ThreadOut {
                         r.push();
                         r.update();
                     }
-                    {
+                    if pv.len() <= 256 || rng.chance(1, 32) {
+                        // (digests, not the elements: in `deep` mode this treap is not capped)
                         let mut both: Vec<&Plain> = Vec::new();
                         if let Some(r) = pt.root.as_mut() {
                             r.collect_into(&mut both);
-                            res.push(both.len() as u64);
-                            res.extend(both.iter().map(|i| i.0));
-                        } else {
-                            res.push(0);
                         }
+                        res.push(both.len() as u64);
+                        res.push(fnv(&both.iter().map(|i| i.0).collect::<Vec<u64>>()));
                         orc.push(pv.len() as u64);
-                        orc.extend(pv.iter().copied());
+                        orc.push(fnv(&pv));
                     }
                     if !pv.is_empty() && (mode == Mode::Deep || pv.len() >= 24) {
                         // remove a key with two direct `TreapNode::split_by`s
